@@ -3,7 +3,7 @@ PROP = dict(
     module="M3d.Props.C06",
     corr=dict(quick=300, thorough=2500),
     gen=["Kernels"],
-    tie_modules=["M3d.Lemmas.KernelsTieSdf"],
+    tie_modules=["M3d.Lemmas.KernelsTieSdf", "M3d.Lemmas.KernelsTieSdfPrim"],
     corr_theorems=(
         "b.* kinds compare the real Go outputs bit-for-bit with the Float run of the faithful models of lean/M3d/Model/Sdf.lean "
         "(sphereOut/circleOut, rectOut3/2, capsuleOut3/2, cylinderOut, coneOut, torusOut, tri2Out, segClosest3/2, triClosest/triDist, "
@@ -12,7 +12,13 @@ PROP = dict(
         "M3d.C06.rect_sdf_exact/rect2_sdf_exact, sphere_sdf_exact/circle_sdf_exact, segment(2)_closest_optimal, "
         "triangle_closest_optimal + triangle_closest_regions, capsule(2)_sdf_exact, cylinder_normal_is_gradient, cylinder_cap_normal_outward, "
         "cone_normal_is_gradient (+cone_radial_unit_orth), torus_normal_is_gradient, profile_sdf_exact, profile_point_sdf_exact, "
-        "mesh_sdf_sign_parity, lipschitz_of_exact/lipschitz_signed_of_exact; b.coll/b.tcoll3/b.tcoll2 (ColliderToSDF, also over "
+        "mesh_sdf_sign_parity, lipschitz_of_exact/lipschitz_signed_of_exact; b.mesh/b.mesh2 (3-D / 2-D MeshToSDF, Grouped…ToSDF: value = "
+        "sign(parity) * linear scan, the face returned by the real pruned search must attain the minimum): mesh_sdf_exhaustive_min "
+        "(3-D scan = minimum over all points of all non-degenerate triangles), mesh_scan_ignores_nan_leaves (the leaf update "
+        "'if dist < *curDist' never lets a NaN leaf influence the result: scan = scan over the non-NaN leaves = their exhaustive "
+        "minimum), mesh_scan_min_over_all_pieces and mesh2_sdf_exhaustive_min_degenerate (2-D: zero-length segments {p,p}, whose "
+        "Closest is 0/0, are skipped and - p being an end point of a proper segment - the result is still the minimum over every "
+        "point of every piece), mesh2_sdf_exhaustive_min; b.coll/b.tcoll3/b.tcoll2 (ColliderToSDF, also over "
         "TransformCollider): collider_sdf_brackets (the bisection returns +-res with |res - D| < D/2^(iters+1) for a threshold ball "
         "query D <= r), transformed_collider(2)_sdf_brackets (the transformed collider's query |s| <= inv.ApplyDistance(r) is the "
         "threshold query for D = k*|SDF(t^-1 c)|) and transformed_collider_sdf_vs_original (= k * the field of the original collider "
@@ -24,7 +30,9 @@ PROP = dict(
         "resp. minus the correctly rounded root of the exact squared distance, face of the normal, exact nearest point "
         "(rect_sdf_exact); x.seg3/x.seg2/x.tri3 = which end point / vertex is the exact minimiser (segClosestQ3 = segClosest3 by "
         "segment_closest_optimal; triClosestQ); x.tri2 = region and vertex distance of the 2-D triangle; x.mesh = the face returned "
-        "by the real FaceSDF attains the exact minimum of the squared triangle distances; x.tsdf3/x.tsdf2 (Rect under dyadic "
+        "by the real FaceSDF attains the exact minimum of the squared triangle distances; x.mesh2 = the segment returned by the real "
+        "2-D FaceSDF is a proper segment attaining the exact minimum over the proper segments of a dyadic outline with zero-length "
+        "pieces (mesh2_sdf_exhaustive_min_degenerate); x.tsdf3/x.tsdf2 (Rect under dyadic "
         "translations and power-of-two scalings, all float operations exact) = k * exact face distance inside, minus the correctly "
         "rounded root of the exact squared distance times k outside (transform_sdf_exact + rect_sdf_exact); x.tcoll3/x.tcoll2 = 'ok' "
         "iff the value returned by the real ColliderToSDF(TransformCollider(t, rect)) has the sign of containment of the inverse image "
@@ -36,7 +44,10 @@ PROP = dict(
         "box aspect ratios down to 1e-3 and up to 1e3) and query points drawn from: uniform in the inflated bounds, exact centres "
         "and tips, points on the axes of symmetry, rim/edge points, points of the surface itself (PointSDF of a random point) and a "
         "hair off it, far away, special point + tiny/axis-aligned offset; meshes: rect, icosahedron, cone, cylinder and random soups "
-        "(<= 40 faces) queried at vertices, near face centroids and at random; profiles over Circle/Rect/Capsule/polar mesh with "
+        "(<= 40 faces) queried at vertices, near face centroids and at random; 2-D meshes: star-shaped, regular, rectangular, two-loop, "
+        "counter-clockwise and grid-rounded outlines (3..14 vertices) with zero-length segments in 3 of 4 cases (closing point repeated, "
+        "vertices listed twice / three times), hierarchy from the listed, a shuffled or the GroupSegments order, queried around and beyond "
+        "the vertices that carry a zero-length piece, at vertices, next to segments, inside, far; profiles over Circle/Rect/Capsule/polar mesh with "
         "queries on/between/outside the z-planes; ColliderToSDF over Sphere/Rect/Capsule with 1..40 iterations; TransformSDF and "
         "ColliderToSDF(TransformCollider) over Sphere/Circle, Rect, Capsule under a bare or joined (1..4 members) transform of "
         "Translate, Scale (|k| < 1, > 1, negative, 1e-3..1e3) and Rotation, 2-D and 3-D, queried at images of inside/outside/"
@@ -51,8 +62,14 @@ PROP = dict(
         "(2-D and 3-D), safeNormal, Sphere/Circle/Capsule(2-D,3-D)/Cylinder/Cone.Contains, Sphere.SphereCollision/Circle.CircleCollision "
         "(= the threshold ball query |SDF| <= r), Min/Max of Rect/Sphere/Circle/Capsule, Matrix2 MulColumn/Inverse, and the members "
         "of the transform model (Translate/Scale/Matrix{3,2}Transform Apply, ApplyDistance incl. d*|k|) "
-        "are the functions the source defines now; the translator itself is validated on every run by executing "
-        "every exported generated definition at Float against the real function (kind gk, bit for bit)",
+        "are the functions the source defines now; M3d.KernelsTie.SdfPrim.* (round 3) re-prove against the regenerated "
+        "genericSDF family (out-pointers as Option arguments/results) that SDF, NormalSDF and PointSDF of Rect (2-D, 3-D), Capsule "
+        "(2-D, 3-D), Cylinder (with filledCircleDist), Cone and Torus, for every combination of nil/non-nil pointers, return the value, "
+        "normal and point of the hand models rectOut3/2, capsuleOut3/2, cylinderOut, coneOut, torusOut (rect*_sdf_family, "
+        "capsule*_sdf_family, cylinder_sdf_family, cone_sdf_family, torus_sdf_family), and that 2-D Segment.Normal is segNormal2; "
+        "running minima that the code starts at math.Inf(1) are tied under the explicit hypothesis that the first candidate is "
+        "below the HasInf constant (RectFinite3/2, CylFinite, ConeFinite; true for every finite float); the translator itself is "
+        "validated on every run by executing every exported generated definition at Float against the real function (kind gk, bit for bit)",
         "modelled, not verified: float64 arithmetic as exact field arithmetic with an exact square root (theorems are about the "
         "model over every linear ordered field with E.Exact; the tie to the floats is the bit-for-bit Float run of the same model)",
         "safeNormal's 1e-5 threshold: in exact arithmetic the projected direction has norm 1, so the fallback is only taken for a "
@@ -60,13 +77,18 @@ PROP = dict(
         "1e-5*size, tolerance of the Go-side predicates for the cone is widened accordingly)",
         "OrthoBasis enters the normal theorems only through the explicit hypotheses 'unit and orthogonal to the axis' "
         "(cone_radial_unit_orth, torus decomposition centered = k*rp + z*A); not proved for the code's OrthoBasis",
-        "Cylinder/Cone/Torus *distance* values: region tests use normalised axes; validated by b.* correspondence and the Go-side "
+        "Cylinder/Cone/Torus *distance* values: region tests use normalised axes; the models are the regenerated source "
+        "(KernelsTieSdfPrim) and run bit-for-bit (b.*), but that the value is the Euclidean distance is validated by the Go-side "
         "predicates (nearest point at reported distance, on the surface, sign <=> Contains, 1-Lipschitz), not proved",
         "triangle_closest_optimal assumes a non-degenerate triangle (invertible (v1 v2 n), edges of positive length); Triangle.Dist is "
         "tied by correspondence only (its interior branch |components.Z| equals the distance because n is a unit normal)",
         "meshDistFunc branch-and-bound = linear scan is C08's theorem (M3d.Spatial.MDF.dist_spec); here the linear scan is the model "
         "and the real pruned search is compared with it (b.mesh value bit-for-bit, x.mesh exact minimiser)",
-        "ray-collision counts and InBounds of meshSDF come from the real collider (C07) and are inputs of the b.mesh line",
+        "ray-collision counts and InBounds of meshSDF come from the real collider (C07) and are inputs of the b.mesh/b.mesh2 lines "
+        "(for clockwise 2-D outlines the sign is also compared with an independent even-odd crossing test, Go side)",
+        "2-D meshes: a zero-length segment is covered by the theorems when its point is an end point of a proper segment of the mesh "
+        "(the outlines generated); the NaN of its Closest is modelled by the order test x <= x (false exactly on NaN at Float, true "
+        "in every ordered field), segments whose length underflows and isolated zero-length segments are not generated",
         "2-D Triangle: only the non-degenerate NewTriangle path (plain matrix inverse) is modelled",
         "colliderSDF/transformedCollider: the bracket theorems assume the wrapped collider's ball query is |SDF(c)| <= r (the source "
         "of Sphere/Circle is tied by KernelsTie; Rect/Capsule.SphereCollision have the same one-line body, covered by the b.tcoll/"
@@ -91,13 +113,16 @@ PROP = dict(
         "interior region, edge loop otherwise); Capsule value = r - distance to the segment in all regions; normals of "
         "Cylinder side/caps, Cone slanted side (repaired formula; the pre-repair formula is proved NOT orthogonal) and Torus are "
         "unit, orthogonal to the face's tangent directions and outward; profileSDF^2 = min over side/caps of the squared distance "
-        "and its sign; profilePointSDF point at the reported distance; mesh sign = bounds && odd parity; a distance-to-set function "
+        "and its sign; profilePointSDF point at the reported distance; mesh sign = bounds && odd parity; the mesh magnitude (2-D and 3-D) is the "
+        "exhaustive minimum over all points of all pieces, NaN leaves (zero-length 2-D segments) never influence it and skipping them "
+        "does not change the minimum when their point lies on a neighbour; a distance-to-set function "
         "(signed or not) is 1-Lipschitz; TransformSDF under a similarity of factor k is k * SDF of the inverse image with nearest "
         "points mapped to nearest points; ColliderToSDF's bisection brackets the threshold of the ball query within D/2^(iters+1), "
         "and over TransformCollider that threshold is k * |SDF of the inverse image| (so it is k times the original collider's "
         "field up to the bisection resolution). The models are tied to /repo on every run by bit-for-bit Float correspondence of SDF, "
         "PointSDF, NormalSDF (BarycentricSDF, FaceSDF, Closest, Dist) of all these shapes in 2D and 3D, of TransformSDF and of "
-        "ColliderToSDF(TransformCollider) plus exact-mode kinds, and by the theorems of KernelsTieSdf over the regenerated kernels."
+        "ColliderToSDF(TransformCollider) plus exact-mode kinds, and by the theorems of KernelsTieSdf / KernelsTieSdfPrim over the "
+        "regenerated kernels (the models of Rect, Capsule, Cylinder, Cone, Torus SDF/NormalSDF/PointSDF ARE the translated source)."
     ),
     level_note=(
         "Exactness over fields, not floats (rounding is not bounded); Cylinder/Cone/Torus distance values and OrthoBasis are tied by "
